@@ -49,6 +49,24 @@ def run(ctx):
     if os.environ.get("VERIF_ONLY_PINNED"):
         return
     concurrent_views(ctx, 300 if quick else 30000)
+    # directed: a conftest that only re-exports (defines nothing itself); the import-only edit inside one() removes one
+    # of its imports, after which the cached per-file view must follow the navigation features
+    from ..witness import fx as wfx, HDR as WHDR
+    for variant in range(2):
+        droot = ctx.scratch(f"reexport{variant}")
+        dws = gen.WS(droot)
+        dws.files = {"conftest.py": "from .fxm import *\nfrom .fxn import *\n",
+                     "fxm.py": WHDR + wfx("fx_a", 1), "fxn.py": WHDR + wfx("fx_b", 2) + wfx("fx_c", 3, deps=["fx_b"]),
+                     "__init__.py": "",
+                     "test_probe.py": WHDR + "def test_p(fx_a, fx_b, fx_c):\n    pass\n\n@pytest.mark.usefixtures()\ndef test_zz_view_probe():\n    pass\n"}
+        if variant == 1:
+            dws.files["sub/conftest.py"] = "from ..fxn import fx_b\n"
+            dws.files["sub/__init__.py"] = ""
+            dws.files["sub/test_probe.py"] = dws.files["test_probe.py"]
+        dws.spec = {"directed": "re-export-only conftest", "depth": 1, "names": ["fx_a", "fx_b", "fx_c"]}
+        materialize(dws)
+        one(ctx, dws.root, dws.abs_files(), dws.files, generated=True, spec=dws.spec)
+        shutil.rmtree(droot, ignore_errors=True)
     for i in range(n):
         root = ctx.scratch(f"w{i}")
         ws = gen.gen_workspace(root, ctx.rng, depth=ctx.rng.randint(1, 3), venv=(i % 2 == 0))
